@@ -31,6 +31,14 @@ pub enum Mode {
 }
 
 pub fn mode() -> Mode {
+    #[cfg(feature = "verif")]
+    if let Some(m) = crate::verif_hooks::thread_ipc_mode() {
+        return match m {
+            0 => Mode::Off,
+            1 => Mode::Build,
+            _ => Mode::Auto,
+        };
+    }
     static M: std::sync::OnceLock<Mode> = std::sync::OnceLock::new();
     *M.get_or_init(|| match std::env::var("QE_IPC_CACHE").as_deref() {
         Ok("0") => Mode::Off,
@@ -74,7 +82,11 @@ fn rg_path(dir: &Path, rg_idx: usize) -> PathBuf {
 /// (readers mmapping files another builder was still writing).
 pub fn ensure_sidecar(parquet_path: &Path) -> Option<PathBuf> {
     let dir = sidecar_dir(parquet_path);
+    #[cfg(feature = "verif")]
+    crate::verif_hooks::point("ensure:source-metadata");
     let src_meta = std::fs::metadata(parquet_path).ok()?;
+    #[cfg(feature = "verif")]
+    crate::verif_hooks::point("ensure:fresh-check-1");
     if is_fresh(&dir, &src_meta) {
         return Some(dir);
     }
@@ -85,7 +97,19 @@ pub fn ensure_sidecar(parquet_path: &Path) -> Option<PathBuf> {
     }
 
     static BUILD_LOCK: std::sync::Mutex<()> = std::sync::Mutex::new(());
+    #[cfg(feature = "verif")]
+    crate::verif_hooks::point("ensure:build-lock");
+    // A "virtual process" of the verification harness models a separate OS
+    // process: it does not share this process's build lock.
+    #[cfg(feature = "verif")]
+    let _guard = match crate::verif_hooks::virtual_pid() {
+        Some(_) => None,
+        None => Some(BUILD_LOCK.lock().ok()?),
+    };
+    #[cfg(not(feature = "verif"))]
     let _guard = BUILD_LOCK.lock().ok()?;
+    #[cfg(feature = "verif")]
+    crate::verif_hooks::point("ensure:fresh-check-2");
     if is_fresh(&dir, &src_meta) {
         return Some(dir);
     }
@@ -129,6 +153,13 @@ fn is_fresh(dir: &Path, src_meta: &std::fs::Metadata) -> bool {
 
 fn build_sidecar(parquet_path: &Path, dir: &Path, src_meta: &std::fs::Metadata) -> Result<()> {
     let staging = dir.with_extension(format!("{}.building", std::process::id()));
+    #[cfg(feature = "verif")]
+    let staging = match crate::verif_hooks::virtual_pid() {
+        Some(vp) => dir.with_extension(format!("{vp}.building")),
+        None => staging,
+    };
+    #[cfg(feature = "verif")]
+    crate::verif_hooks::point("build:staging");
     let _ = std::fs::remove_dir_all(&staging);
     std::fs::create_dir_all(&staging)?;
     let build_into = staging.clone();
@@ -342,8 +373,14 @@ fn build_sidecar(parquet_path: &Path, dir: &Path, src_meta: &std::fs::Metadata) 
     // if the rename still loses, defer to whatever is there — the fresh
     // check on the next call decides.
     let final_dir = sidecar_dir(parquet_path);
+    #[cfg(feature = "verif")]
+    crate::verif_hooks::point("build:remove-final");
     let _ = std::fs::remove_dir_all(&final_dir);
+    #[cfg(feature = "verif")]
+    crate::verif_hooks::point("build:rename");
     if std::fs::rename(&staging, &final_dir).is_err() {
+        #[cfg(feature = "verif")]
+        crate::verif_hooks::point("build:loser-cleanup");
         let _ = std::fs::remove_dir_all(&staging);
     }
     Ok(())
@@ -411,6 +448,8 @@ pub fn read_row_group(
     use arrow::ipc::reader::{read_footer_length, FileDecoder};
 
     let path = rg_path(dir, rg_idx);
+    #[cfg(feature = "verif")]
+    crate::verif_hooks::point("read:open-row-group");
     let file = File::open(&path)?;
     // SAFETY: the sidecar is created atomically by build_sidecar (readers
     // only see it after `.complete` is stamped) and never mutated in place —
